@@ -430,9 +430,11 @@ class TRS:
             default_ew = MasterConfig.default_ew
 
         # Ensure legal N/S and E/W values.
-        if default_ns.lower() not in MasterConfig._LEGAL_NS:
+        if (not isinstance(default_ns, str)
+                or default_ns.lower() not in MasterConfig._LEGAL_NS):
             raise DefaultNSError(default_ns)
-        if default_ew.lower() not in MasterConfig._LEGAL_EW:
+        if (not isinstance(default_ew, str)
+                or default_ew.lower() not in MasterConfig._LEGAL_EW):
             raise DefaultEWError(default_ew)
 
         def scrub(twp_rge_or_section, ns_ew_sec):
